@@ -450,7 +450,7 @@ def render(rng, nl, layout="free", comments=0.0, shuffle=True, split_decl=None):
                 continue
             if prev is not None:
                 wordy = lambda x: x[0].isalnum() or x[0] in "_\\" or x[0] == "'"
-                mand = (wordy(prev) and wordy(t)) or prev.startswith("\\") or (prev in ("~", "^", "~^", "^~", "!", "&", "|") and t in ("~", "^", "~^", "^~")) or (prev == "," and t == "." and fast)
+                mand = (wordy(prev) and wordy(t)) or prev.startswith("\\") or (prev in ("~", "^", "~^", "^~", "!", "&", "|") and t in ("~", "^", "~^", "^~"))
                 out.append(wsp(mand) or (" " if mand else ""))
                 if with_comments:
                     out.append(comment())
@@ -504,10 +504,7 @@ def render(rng, nl, layout="free", comments=0.0, shuffle=True, split_decl=None):
                 for o in ops:
                     toks += [","] + operand(o)
                 toks.append(")")
-            if fast:
-                toks[-1] = ");"
-            else:
-                toks.append(";")
+            toks.append(";")
             items.append(toks)
         elif s["k"] == "assign":
             toks = ["assign"]
@@ -534,9 +531,8 @@ def render(rng, nl, layout="free", comments=0.0, shuffle=True, split_decl=None):
                 # all pins omitted: not expressible with named ports; connect nothing explicitly
                 p0 = s["pins"][0][0]
                 toks += [".", p0, "(", ")"]
-            toks.append(");" if fast else ")")
-            if not fast:
-                toks.append(";")
+            toks.append(")")
+            toks.append(";")
             if not fast and bb_open.get(s["type"]) is not None and rng.random() < 0.5:
                 # several instances of one cell in one statement:  ff i0 (...), i1 (...);
                 prev = bb_open[s["type"]]
